@@ -300,6 +300,28 @@ Definition determine_precommit (repaired : bool) (e : env) (st : vstate) : outco
       else Ok pvb
     end).
 
+(* determinePreVote.  [primary] = index of the round's primary (derivePrimary: round mod number of
+   voters).  The vote of the primary stored in s.prevotes (its prevote or its primary proposal) is
+   taken over when its number is not below the finalised head, else the head of the node's best
+   chain; a pending authority change caps the vote at the block of that height ON THE BEST CHAIN
+   (GetHeaderByNumber), also when the primary's block is on another fork. *)
+Definition determine_prevote (e : env) (st : vstate) (primary : nat) : outcome gvote :=
+  let best := mkGV (e_best e) (number e (e_best e)) in
+  let vote := match lookup primary (s_pv st) with
+              | Some g => if (number e (s_head st) <=? gv_num g)%N then g else best
+              | None => best
+              end in
+  match e_next_change e with
+  | None => Ok vote
+  | Some nc =>
+    if (nc <? gv_num vote)%N then
+      match header_by_number e nc with
+      | Some b => Ok (mkGV b (number e b))
+      | None => Err err_header_by_number
+      end
+    else Ok vote
+  end.
+
 (* attemptToFinalize: Ok None = not finalizable now; Ok (Some b) = finalised b (s.head := b) *)
 Definition attempt_to_finalize (e : env) (st : vstate) : outcome (option block) * vstate :=
   match best_final_candidate e st with
